@@ -124,6 +124,8 @@ def main(argv=None):
     for o in obls:
         if only and o.name not in only:
             continue
+        if o.n[a.tier] <= 0:
+            continue          # obligation not part of this tier
         n = max(1, int(round(o.n[a.tier] * a.scale)))
         shards = max(1, min(o.max_shards, a.jobs, n // max(1, o.min_per_shard)))
         per = [n // shards + (1 if i < n % shards else 0) for i in range(shards)]
